@@ -230,7 +230,8 @@ func init() {
 		add(2, 1, 1, 0, 0, 0, 0)
 		add(3, 1, 0, 1, 0, 0, 0)
 		js = append(js, J(".", "VX_C02_CloseThenLoss", 0), J(".", "VX_C02_CloseThenLoss", 1), J(".", "VX_C02_HandlerCallsBack"))
-		js = append(js, J(".", "VX_C02_FastReply", 0, 1), J(".", "VX_C02_FastReply", 1, 0))
+		js = append(js, J(".", "VX_C02_FastReply", 0, 1), J(".", "VX_C02_FastReply", 1, 0), J(".", "VX_C02_FastReply", 2, 0))
+		js = append(js, J(".", "VX_C02_DuplicateReply", 1, 1), J(".", "VX_C02_DuplicateReply", 4, 1), J(".", "VX_C02_DuplicateReply", 4, 0))
 		js = append(js, historyJobs(tier, true)...)
 		js = append(js, J(".", "VX_C02_ReplyThenLoss", 0, 1, 0), J(".", "VX_C02_ReplyThenLoss", 0, 4, 0), J(".", "VX_C02_ReplyThenLoss", 1, 1, 0), J(".", "VX_C02_ReplyThenLoss", 0, 1, 1),
 			J(".", "VX_C14_DisconnectWhileLaunching", 0, 0), J(".", "VX_C14_DisconnectWhileLaunching", 1, 1), J(".", "VX_C14_DisconnectWhileLaunching", 0, 1),
@@ -306,6 +307,7 @@ func init() {
 			js = append(js, J(".", "VX_C03_Frame", 1, 1, 0, 0, 0, 0, 1, 0), J(".", "VX_C03_Frame", 1, 2, 0, 0, 0, 0, 1, 0), J(".", "VX_C03_Frame", 1, 1, 1, 0, 0, 0, 1, 0), J(".", "VX_C03_Frame", 1, 0, 0, 0, 2, 0, 1, 0))
 			js = append(js, J(".", "VX_C03_Frame", 1, 0, 0, 5, 0, 0, 1, 0), J(".", "VX_C03_Frame", 1, 0, 0, 6, 0, 0, 1, 0), J(".", "VX_C03_Frame", 1, 0, 0, 0, 4, 0, 1, 0))
 			js = append(js, msgSeqJobs(tier)...)
+			js = append(js, J(".", "VX_C02_FastReply", 2, 0))
 			// wire link over the other protocols
 			js = append(js, J("proto/jsonproto", "VX_C05_JSONRoundTrip", 3, 1, 1), J("proto/jsonproto", "VX_C05_JSONRoundTrip", 3, 0, 1),
 				J("mixer/websocket/pbSubProto", "VX_C04_WSPbStatus"), J("mixer/websocket/jsonSubProto", "VX_C04_WSJsonStatus"),
@@ -573,7 +575,7 @@ func init() {
 			}
 			js = append(js, J(".", "VX_C14_Races", 0, 1), J(".", "VX_C14_Races", 4, 1))
 			js = append(js, J(".", "VX_C14_DisconnectWhileLaunching", 0), J(".", "VX_C14_DisconnectWhileLaunching", 1), J(".", "VX_C14_DisconnectWhileLaunching", 0, 1))
-			js = append(js, J(".", "VX_C14_Races", 7, 0), J(".", "VX_C14_Races", 8, 0), J(".", "VX_C14_Races", 7, 1), J(".", "VX_C14_Races", 8, 1), J(".", "VX_C14_Races", 9, 0))
+			js = append(js, J(".", "VX_C14_Races", 7, 0), J(".", "VX_C14_Races", 8, 0), J(".", "VX_C14_Races", 7, 1), J(".", "VX_C14_Races", 8, 1), J(".", "VX_C14_Races", 9, 0), J(".", "VX_C14_Races", 10, 0), J(".", "VX_C14_Races", 11, 0), J(".", "VX_C14_Races", 12, 0))
 			if tier == "thorough" {
 				for sc := 1; sc <= 6; sc++ {
 					js = append(js, J(".", "VX_C14_Races", sc, 1))
